@@ -78,8 +78,17 @@ func (r *vRepStub) DivvyingTips(ctx context.Context, reporterAddr sdk.AccAddress
 
 type vOracleAcc struct{ types.AccountKeeper }
 
+// vModAcc: a module account as far as the oracle module uses one (its address).
+type vModAcc struct {
+	sdk.ModuleAccountI
+	name string
+}
+
+func (m vModAcc) GetAddress() sdk.AccAddress { return authtypes.NewModuleAddress(m.name) }
+func (m vModAcc) GetName() string            { return m.name }
+
 func (vOracleAcc) GetModuleAccount(ctx context.Context, name string) sdk.ModuleAccountI {
-	return authtypes.NewEmptyModuleAccount(name)
+	return vModAcc{name: name}
 }
 
 func vOracleKeeper(rep types.ReporterKeeper, bank types.BankKeeper, reg types.RegistryKeeper) (sdk.Context, Keeper) {
